@@ -1134,7 +1134,14 @@ func (h *hist) stepSaveLoad() {
 func (h *hist) stepBig() {
 	for k, n := 0, 1+h.r.Intn(3); k < n && !h.stopped; k++ {
 		var ins []OP
-		if fp := h.freePooled(); len(fp) > 0 && h.r.Intn(2) == 0 {
+		if h.r.Intn(4) == 0 {
+			// like SendGetMP: the dynamic fee floor is dropped, so the pool can fill up again
+			txpool.TxMutex.Lock()
+			txpool.CurrentFeeAdjustedSPKB = 0
+			common.SetMinFeePerKB(0)
+			txpool.TxMutex.Unlock()
+		}
+		if fp := h.freePooled(); len(fp) > 0 && h.r.Intn(4) != 0 {
 			ins = h.take(&fp, 1)
 		} else {
 			fc := h.freeConfirmed()
@@ -1154,10 +1161,19 @@ func (h *hist) stepBig() {
 		if h.prof.noMemIn {
 			pth = "net-trusted"
 		}
-		before := len(h.v.ents)
-		if h.sub(x, pth) == 0 && h.v != nil && len(h.v.ents) < before {
-			h.run.Inc("evictions_at_size_limit_observed")
-			h.run.Count("txs_evicted_at_size_limit", int64(before+1-len(h.v.ents)))
+		before := h.v
+		if h.sub(x, pth) == 0 && h.v != nil {
+			gone := 0
+			for _, e := range before.ents {
+				if h.v.byID[e.id] == nil {
+					gone++
+				}
+			}
+			if gone > 0 {
+				h.run.Inc("evictions_at_size_limit_observed")
+				h.run.Count("txs_evicted_at_size_limit", int64(gone))
+				h.run.Distinct("step_outcomes", "evicted", bucket(gone), bucket(len(before.ents)))
+			}
 		}
 	}
 }
